@@ -716,12 +716,13 @@ def ref_unit(case):
         sroot, host, droot = d(t[1]), d(t[2]), d(t[3])
         if host is None or droot is None or not sroot.endswith(b"/") or b"/" in host: return None
         h = host.split(b":")[0]
+        if not h: return None                       # no host name: nothing documented
         return ("path", sroot + h + b"/" + droot.lstrip(b"/"))         # server-root + hostname + "/" + document-root
     if t[0] == "E":
         pat, auth = d(t[1]), d(t[2])
         host = auth.split(b":")[0]
         labels = host.split(b".")
-        if not host or auth.startswith(b"[") or any(not re.fullmatch(rb"[A-Za-z0-9\-]+", l) for l in labels) or auth.count(b":") > 1: return None
+        if not host or auth.startswith(b"[") or any(not re.fullmatch(rb"[A-Za-z0-9\-]+", l) for l in labels) or not re.fullmatch(rb"[^:]*(:[0-9]*)?", auth): return None
         out = b""; i = 0
         while i < len(pat):
             c = pat[i:i + 1]
